@@ -372,7 +372,10 @@ class ResourceScenario(ScenarioData):
         """
         slot_duration: float = self.project.attributes.get("scheduleGranularity", 3600)
         seconds_used = self.slotSecondsUsed.get(sb_idx, 0.0)
-        return float(max(0.0, slot_duration - seconds_used))
+        available = float(max(0.0, slot_duration - seconds_used))
+        # A remainder below a microsecond is floating point noise left by a tail release
+        # (e.g. 299.9999999999997 s used of 300), not time anybody can work in
+        return available if available >= 1e-6 else 0.0
 
     def markSlotPartiallyUsed(self, sb_idx: int, seconds_used: float) -> None:
         """
